@@ -1,3 +1,5 @@
+import os
+
 import vf
 
 SPEC = dict(
@@ -6,13 +8,17 @@ SPEC = dict(
                  n_quick=250, n_thorough=4000),
     runner=dict(imports=["From ZV Require Import Lib.Base Model.Sched."], case_type="c20case",
                 mismatch_fn="c20_mismatches", shard=250),
-    rule="one case = one trial: a fresh newMultiScheduler (capacity in {1,2,3,4,5,8}, batchdiv in {default,1,2,3}, "
+    rule="capacity sweep (deterministic, every run): newMultiScheduler for every capacity 1..40 x batchdiv in {default,1..8,16,64}, both "
+         "semaphores probed, empty trace, non-trivial = capacity is not a multiple of batchdiv (the rounding matters). Then "
+         "one case = one trial: a fresh newMultiScheduler (capacity in {1,2,3,4,5,8}, batchdiv in {default,1,2,3}, "
          "interactiveDuration in {0,30us,300us,1h}) driven by 2..16 goroutines through Acquire/Yield/Release in 3 stages with "
          "pre-cancelled, timer-cancelled and driver-cancelled contexts; slots carried over stage ends; the real occupancy of both "
          "semaphores is probed at each quiescent stage end. The whole logged trace must be accepted by the model's `accepts`. "
          "Non-trivial = at least one real move to the batch queue (or failed move) and the interactive queue was full or an "
          "Acquire was cancelled while waiting.",
-    trusted_base=["correspondence harness harness/overlay/search/zz_verif_c20_test.go (driver, logging discipline: releases logged "
+    trusted_base=["translator/schedconsts (reads default batchdiv and the batch-size computation of newMultiScheduler from search/sched.go "
+                  "into coq/Generated/SchedConsts.v on every run; Go `/` on int64 = Z.quot)",
+                  "correspondence harness harness/overlay/search/zz_verif_c20_test.go (driver, logging discipline: releases logged "
                   "before the call, grants after the return, Yield classified at return; Go replay oracle)",
                   "golang.org/x/sync/semaphore.Weighted modelled by its contract (counter with capacity, Acquire fails only with "
                   "ctx.Err(), Release panics on underflow); FIFO fairness not modelled (superset of behaviours)",
@@ -22,5 +28,34 @@ SPEC = dict(
                  "capacity >= 1"],
 )
 
+GEN = os.path.join(vf.COQ, "Generated", "SchedConsts.v")
+
+
+def regen(ctx):
+    """coq/Generated/SchedConsts.v (default batchdiv + the computation of the batch semaphore's size) from the
+    search/sched.go of the tree under test.  Returns (note for the evidence, broken message or None)."""
+    rc, out = vf.sh(["go", "run", os.path.join(vf.ROOT, "translator", "schedconsts", "main.go"), vf.REPO],
+                    cwd=vf.REPO, env=vf.go_env(), timeout=300)
+    if rc != 0 or "Definition batch_cap_src" not in out or "Definition default_batchdiv" not in out:
+        # a shape of newMultiScheduler the translator does not read: the formula theorem then speaks about the last
+        # generated computation only; the capacity sweep still compares the real semaphore sizes with it
+        return "NOT regenerated (translator/schedconsts: %s); tie by the capacity sweep only" % out.strip()[-300:], None
+    start = out.index("(* GENERATED")
+    with vf._Lock("coq"):
+        changed = vf.write_if_changed(GEN, out[start:])
+    return "regenerated from %s/search/sched.go%s" % (vf.REPO, " (content changed)" if changed else ""), None
+
+
 def run(ctx):
-    return vf.standard_check(ctx, SPEC)
+    note, _ = regen(ctx)
+    orig = vf.finish
+
+    def finish2(ctx_, level, proofs, coverage, failures=(), broken=(), **kw):
+        coverage = dict(coverage)
+        coverage["generated_sched_consts"] = note
+        return orig(ctx_, level, proofs, coverage, failures=failures, broken=broken, **kw)
+    vf.finish = finish2
+    try:
+        return vf.standard_check(ctx, SPEC)
+    finally:
+        vf.finish = orig
